@@ -51,6 +51,7 @@ func main() {
 	}
 	fn(c)
 	c.ConcurrentReplay()
+	c.DeferredCheck()
 	c.RetainCheck()
 	c.Flush()
 	c.out.Flush()
